@@ -190,7 +190,7 @@ func vRunJob(t *testing.T, job *vJob, tmpRoot string) *vResult {
 				// ... unless the steps were burnt by one task going round and round at the same place without the
 				// clock moving (the scheduler noted it): for the properties that say "never a hang" that is one
 				if vHangProps[job.Prop] {
-					if ll := rc.w.Livelock(3000, time.Second); ll != "" {
+					if ll := rc.w.Livelock(3000, 24*time.Hour); ll != "" {
 						res.Class, res.Kind = "violation", "hang"
 						res.Sig = job.Prop + ":hang:livelock:same-message-forever"
 						res.Msg = fmt.Sprintf("the run used up its %d scheduling steps in %v of simulated time and neither role had ended; %s", rc.w.Steps, rc.w.Now(), ll)
